@@ -29,6 +29,11 @@ CLAIMS = {
   'design_ref': 'DESIGN.md section 4 / C03 and Appendix B',
   'note': 'Trusted: asyncio.Lock mutual exclusion, cooperative scheduling, inspect.getmembers model, aiofiles.os externs; EDGES table pinned from the documentation and the property statement. One defect found and fixed (0399347).',
  },
+ 'C12': {
+  'text': 'Proof. ExpectedResponse.matches is executed on symbolic connections/messages for every shape of the field dictionary (scalar and callable matchers in either order, missing attributes, peer given or not) and its result is proved equivalent to the conjunction over ALL fields the property states. on_message_received is executed for an arbitrary pending future with symbolic done/cancelled/matches status: it raises nothing, completes exactly the pending matching futures with (connection, message), leaves the others untouched and runs handlers and bus listeners first. wait_for_server/peer_message and SoulSeekClient.execute are executed for every outcome of the awaited future (message, expiry, cancellation, send failure): expiry surfaces as TimeoutError and the future is done on every exit; each registration site attaches the idempotent removal callback in the same atomic section. The cancelled-but-not-yet-removed window and the timeout path are never reached by the suite (mocked).',
+  'design_ref': 'DESIGN.md section 4 / C12 and Appendix B',
+  'note': 'Trusted: abstract asyncio Future model (InvalidStateError on done futures, async_timeout cancels the awaited future), cooperative scheduling, the independent-iterations loop rule (frame-checked). Three defects found and fixed (36711ee, 687c0d2, 407c005).',
+ },
 }
 
 NA_DEFAULT = 'check not built yet (work in progress; see DESIGN.md section 4 for the planned contracts)'
